@@ -723,6 +723,7 @@ Proof.
     destruct (plan_text f r Hin) as [t ->].
     cbn [map pend second_pass]. rewrite Cv. cbn [fixed v_backlog_chdir].
     rewrite (chdir_stays D _ _ f t I Hin).
+    destruct (backlog_verify fixed (w_fs w) (pf_dir f) (pf_rel f) (new_path f t)); [intros E; discriminate E|].
     destruct (renamer c w (pf_dir f) (pf_rel f) (new_path f t) false) as [w1 [e1|]] eqn:R.
     + destruct (is_file_exists e1); [|intros E; discriminate E].
       unfold resolve_conflict. rewrite Cs. cbn [resolve_simple]. intros E; discriminate E.
